@@ -2,22 +2,41 @@ From Coq Require Import String List Bool Arith.
 From Verif Require Import Base.Str Base.Run C06.Model C06.Spec.
 Import ListNotations.
 
-(* a case: the delivery (binding the caller names, Response/@Destination, abstract Response and receiver
-   state) and the verdict observed on the real Saml2Client.parse_authn_request_response *)
+(* a case: the delivery (binding the caller names, Response/@Destination, which assertions arrive encrypted,
+   abstract Response and receiver state) and the verdict observed on the real
+   Saml2Client.parse_authn_request_response *)
 Definition case := (delivery * verdict)%type.
 
-Definition mk (b : binding) (d : destination) (allow : bool) (out : list (string * string)) (irt : option string)
-  (version : nat * nat) (top : string) (second : option string) (assertions : list assertion_in) (obs : verdict) : case :=
-  ({| via := b; dest := d;
+Definition mk (b : binding) (d : destination) (fl : list bool) (allow : bool) (out : list (string * string))
+  (irt : option string) (version : nat * nat) (top : string) (second : option string)
+  (assertions : list assertion_in) (obs : verdict) : case :=
+  ({| via := b; dest := d; sealed := fl;
       resp := {| allow_unsolicited := allow; outstanding := out; irt := irt; version := version; status_top := top;
                  status_second := second; assertions := assertions |} |}, obs).
 
 Definition agrees (c : case) : bool := verdict_eqb (receive (fst c)) (snd c).
 Definition holds (c : case) : bool := spec_d_b (fst c) (snd c).
-Definition cls (c : case) : nat := 0.
+
+(* an assertion that arrives encrypted has a confirmation whose data does not answer the request the Response answers *)
+Definition sealed_stray (y : delivery) : bool :=
+  match answered (resp y) with
+  | Some i => existsb (fun a => match subject a with Some scs => existsb (sc_strays i) scs | None => false end)
+                      (snd (split_sealed (sealed y) (assertions (resp y))))
+  | None => false
+  end.
+
+(* classes (looked at only when [holds] is false, and only when it is the correlation clause that fails):
+   3 = C06-F3 (fixed by e76039c1): encrypted assertion, some confirmations answer the request, some do not;
+   2 = C06-F2 (fixed by b84752ad): encrypted assertion with a stray confirmation, none of the above *)
+Definition cls (c : case) : nat :=
+  let y := fst c in
+  if negb (browser (via y)) || correlated_b (resp y) (snd c) then 0
+  else if partial_match y then 3
+  else if sealed_stray y then 2 else 0.
+
 Definition run := run_cases agrees holds cls.
 Definition explain (c : case) :=
   let x := resp (fst c) in
-  (receive (fst c), (browser (via (fst c)), well_addressed (fst c)),
+  (receive (fst c), receive_v1 (fst c), receive_v0 (fst c), (browser (via (fst c)), well_addressed (fst c), partial_match (fst c), cls c),
    (correlated_b x (snd c), status_respected_b x (snd c), shape_respected_b x (snd c),
     accepted_when_fine_b x (snd c), status_raised_when_fine_b x (snd c))).
